@@ -10,6 +10,12 @@ from framework import graph_replay
 
 MANUAL_ACTIONS = ["Schedule", "GetExpired", "Cancel", "Destroy", "Construct"]
 START_ACTIONS = ["CoSleep", "CoCancel", "CoFinish", "WorkerPoll", "WorkerWait", "StartReturn", "DestroyAfterStart", "Restart"]
+# the awaited operation of start(): every way it may end, told to start() directly / through the coro_queue
+MAIN_ALL = {"MainRes": {"void", "val", "exc", "drop"}, "MainVia": {"direct", "queued"}}
+
+
+# development aid: C12_ONLY=start2,interval bin/check C12 quick  runs only the named models ("thread", "pool": the other modes)
+ONLY = set(filter(None, os.environ.get("C12_ONLY", "").split(",")))
 
 
 def as_list(v):
@@ -31,6 +37,9 @@ def proj(st):
         d["phase"] = "active" if st["phase"] in ("pre", "run") else st["phase"]
         d["rq"] = list(st["rq"])
         d["cst"] = [{"st": c["st"], "wst": c["wst"], "wat": c["wat"]} for c in as_list(st["cst"])]
+        # what start() did (returned / returned the value / rethrew / threw await_canceled_exception), once it has ended
+        d["res"] = st["mres"] if st["phase"] in ("returned", "destroyed") else "none"
+        d["runs"] = st["runs"]
     return d
 
 
@@ -38,7 +47,7 @@ def fmt(v):
     if isinstance(v, bool):
         return "TRUE" if v else "FALSE"
     if isinstance(v, (set, frozenset, list, tuple)):
-        return "{" + ", ".join(str(x) for x in sorted(v)) + "}"
+        return "{" + ", ".join(fmt(x) for x in sorted(v)) + "}"
     if isinstance(v, str):
         return '"%s"' % v
     return str(v)
@@ -56,6 +65,8 @@ FORMS = ["until", "ns", "sched", "us", "hms", "ms", "us32", "s", "min", "fsec"]
 def model(ctx, rp, cfg, tag, consts, must, max_paths=None, extra_random=0, variants=None):
     """consts: the complete constant assignment (the cfg files hold quick-tier defaults for running TLC by
     hand; everything is given again here so that the header handed to the replayer always matches)"""
+    if ONLY and tag not in ONLY:
+        return None
     def hdr(k, st0):
         return {"mode": consts["Mode"], "coro": bool(k % 2), "slots": consts["MaxSleeps"],
                 "interval": consts["Interval"], "nc": consts["NC"], "tm": TIME_MAP, "forms": FORMS, "phase": k}
@@ -69,7 +80,8 @@ def model(ctx, rp, cfg, tag, consts, must, max_paths=None, extra_random=0, varia
 
 def base(**kw):
     c = {"Mode": "manual", "TPs": {2, 4}, "Nows": {1, 2, 3, 4}, "Ids": {0, 1, 2}, "CancelIds": {0, 1, 2},
-         "MaxSleeps": 3, "MaxHeap": 3, "MaxOps": 0, "AllowRemove": True, "Interval": 0, "NC": 1}
+         "MaxSleeps": 3, "MaxHeap": 3, "MaxOps": 0, "AllowRemove": True, "Interval": 0, "NC": 1,
+         "MainRes": {"void"}, "MainVia": {"direct"}, "MaxRuns": 1}
     c.update(kw)
     return c
 
@@ -127,10 +139,17 @@ def run(ctx):
     # (b) start(awaitable), single thread, virtual time ------------------------------------------
     st = base(Mode="start", TPs={2, 4, 6}, Nows=set(), Ids={0, 1}, CancelIds={1}, MaxSleeps=2, MaxHeap=4,
               MaxOps=4, AllowRemove=False, NC=2)
-    model(ctx, rp, "Scheduler_start.cfg", "start2", st, START_ACTIONS, variants=two)
-    st3 = dict(st, NC=3, MaxSleeps=3, MaxOps=5 if q else 6, TPs={2, 4})
+    # the awaited operation ends in every way (value / exception / dropped promise; directly / through the coro_queue) and
+    # start() is called twice on the same object: thorough on the full start2 space, quick on two time points next to
+    # the plain start2
+    if q:
+        model(ctx, rp, "Scheduler_start.cfg", "start2", st, START_ACTIONS)
+        model(ctx, rp, "Scheduler_start.cfg", "startres", dict(st, TPs={2, 4}, MaxRuns=2, **MAIN_ALL), START_ACTIONS + ["StartAgain"])
+    else:
+        model(ctx, rp, "Scheduler_start.cfg", "start2", dict(st, MaxRuns=2, **MAIN_ALL), START_ACTIONS + ["StartAgain"], variants=two)
+    st3 = dict(st, NC=3, MaxSleeps=3, MaxOps=5 if q else 6, TPs={2, 4}, MainRes={"void"}, MainVia={"direct"}, MaxRuns=1)
     model(ctx, rp, "Scheduler_start.cfg", "start3", st3, START_ACTIONS)
-    if not q:
+    if not q and not ONLY:
         # a larger space on the specification only (no replay): two identifiers, 4 sleeps pending, array of 5
         big = base(TPs={2, 4}, Nows={2, 4}, Ids={1, 2}, CancelIds={1, 2}, MaxSleeps=4, MaxHeap=5, AllowRemove=False)
         cfgp = os.path.join(vlib.BUILD, "C12_big.cfg")
@@ -151,10 +170,19 @@ def run(ctx):
                "the array order after every call, so a different standard library would show as a divergence, not pass silently")
     ctx.assume("start(awaitable): virtual time -- clock_gettime(CLOCK_REALTIME) and pthread_cond_timedwait are interposed in the "
                "replayer; running coroutines take no time; nobody notifies the condition variable (single thread)")
+    ctx.assume("start(awaitable), the awaited operation: ends with no value / a value / an exception / a dropped promise, told to "
+               "start() by symmetric transfer (start(async<T>&&), start(async<T>&), start(future<T>&) fed by the coroutine; T = void, "
+               "int) or through the coro_queue (start(future<T>&) whose promise coroutine 1 resolves / drops by hand); start() must "
+               "return / return that value / rethrow that exception / throw await_canceled_exception after its worker has ended; "
+               "start() is called up to twice on the same object (quick: model startres, two time points; thorough: start2; the other start "
+               "models have the void coroutine, told directly, and one start() per object); start() from "
+               "inside a coroutine / recursively is not replayed")
     # (c) thread mode: the scheduler's own worker thread against a client thread (lock grain + the worker's clock
     # read), virtual time, incl. destruction racing with the worker's loop
     from checks import c12thread
-    c12thread.thread_mode(ctx)
+    if not ONLY or "thread" in ONLY:
+        c12thread.thread_mode(ctx)
     # (d) thread-pool mode: worker_coro<true> travelling through a real thread_pool (two mutexes, nested acquisitions)
     from checks import c12pool
-    c12pool.pool_mode(ctx)
+    if not ONLY or "pool" in ONLY:
+        c12pool.pool_mode(ctx)
